@@ -26,7 +26,12 @@ CONFIGS = {
 }
 
 
+NODEBUG = '@nodebug'     # build-profile dimension: cfg(debug_assertions) off (what --release compiles), overflow checks kept
+
+
 def config_flags(config):
+    if config.endswith(NODEBUG):
+        config = config[:-len(NODEBUG)]
     if config in CONFIGS:
         return CONFIGS[config]
     if config.startswith('f:'):
@@ -125,7 +130,8 @@ def extract_facts(repo, config='all', crate='hpke', force=False):
                 head = f.read(400)
             if ('"tree_hash":"%s"' % th) in head:
                 return out, {'cached': True, 'tree_hash': th}
-        tdir = os.path.join(CACHE, 'target', 'facts')
+        nodebug = config.endswith(NODEBUG)
+        tdir = os.path.join(CACHE, 'target', 'facts-nodebug' if nodebug else 'facts')
         # cargo's freshness cache would skip the wrapper: drop the member's fingerprints
         fp = os.path.join(tdir, 'debug', '.fingerprint')
         if os.path.isdir(fp):
@@ -148,6 +154,10 @@ def extract_facts(repo, config='all', crate='hpke', force=False):
             'HPKE_FACTS_NONCE': nonce,
             'HPKE_FACTS_CRATE': crate,
         })
+        if nodebug:
+            # debug_assert!/cfg(debug_assertions) code disappears, as in a release build; arithmetic overflow checks are
+            # kept so that the MIR differs from the dev profile only where the source asks for it
+            env['RUSTFLAGS'] += ' -C debug-assertions=off -C overflow-checks=on'
         cmd = ['cargo', '+nightly', 'check', '--offline', '--lib', '-q'] + config_flags(config)
         p = subprocess.run(cmd, cwd=repo, env=env, stdout=subprocess.PIPE, stderr=subprocess.STDOUT, text=True)
         if p.returncode != 0 or not os.path.exists(tmp):
